@@ -30,7 +30,9 @@ ASSUMPTIONS = [
     "hours make up a valid day (month family of the hourly class uses hour-granular gaps for the per-month criteria only)",
     "ambiguity bands (both verdicts accepted, counted in coverage.bands): hourly class truncated vs exact day totals; "
     "hourly temperature feed under a daily/billing meter (day grid vs hours of the feed); billing closing read (period sum N "
-    "vs daily grid N-1); off-cycle period counted as valid or as dropped; zones with DST (+-1 day on counts and span); "
+    "vs daily grid N-1); off-cycle period counted as valid or as dropped; zones with DST (+-1 day on the counts of valid days; "
+    "the span itself is a number of calendar days and is decided exactly in every zone, also when it starts in one clock phase and "
+    "ends in the other); "
     "months pooled by month number vs separate (year, month) when a span revisits a month",
     "month coverage is relative to the days (hours) of that month that lie inside the span",
     "reporting data: span and negative-usage criteria are baseline-only; for supplied reporting usage two complete readings "
@@ -513,6 +515,16 @@ def dst_cases(tier):
                             for what in (["none"] if m == 0 else (["temp"] if kind == "billing" else ["usage", "temp", "same"])):
                                 out.append({"fam": "dst", "cls": kind, "role": role, "fuel": "electric", "entry": entry,
                                             "feed": feed, "N": n, "m": m, "what": what, "place": "interior", "zone": zone})
+    # spans at the length limits that start in one clock phase and end in the other (the elapsed time is an hour short
+    # of / beyond a whole number of days): 2020-12-01 and 2020-11-02 standard -> daylight, 2021-03-14 starts on the
+    # spring-forward day itself, 2021-03-20 daylight -> standard
+    for start in ("2020-12-01", "2020-11-02", "2021-03-14", "2021-03-20", "2021-11-07"):
+        for kind in CLASSES:
+            for role in ROLES:
+                for entry, feed in entry_feed_pairs(kind, "quick"):
+                    for n in (328, 329, 365, 366):
+                        out.append({"fam": "dst", "cls": kind, "role": role, "fuel": "electric", "entry": entry, "feed": feed,
+                                    "N": n, "m": 0, "what": "none", "place": "interior", "zone": "America/Chicago", "start": start})
     # zones whose clock changes at local midnight (a day without a 00:00 / with two): well-formed input must be accepted
     for zone in ["America/Santiago", "America/Havana"] if tier == "quick" else ["America/Santiago", "America/Havana", "Asia/Beirut", "Africa/Cairo"]:
         for kind in CLASSES:
